@@ -52,11 +52,56 @@ def is_ulp_above(e):
 MATCHERS = {"F-C11-lowtarget": is_lowtarget_crash, "F-C11-ulp": is_ulp_above}
 
 
+WB_OPS = {"pow.required", "pow.check", "pow2.params", "pow2.check"}
+
+
+def _directed(wb):
+    """API-level calls for the parameters a white-box event deviated on: Mine with one worker on data of that length
+    and that target (only where the search is short: at most 3^11 hashes expected)."""
+    from fractions import Fraction
+    import random
+    rnd = random.Random(7)
+    ins = []
+    for e in wb[:8]:
+        i = e["in"]
+        if e["op"] == "pow.required":
+            t = i["target"]
+            tv = Fraction(sum(v << (12 * k) for k, v in enumerate(t["m"]))) * (Fraction(2) ** t["e"])
+            if t.get("neg"):
+                tv = -tv
+            if tv * i["len"] <= 3 ** 11 and i["len"] >= 8:
+                for _ in range(3):
+                    ins.append(dict(op="pow.Mine", **{"in": dict(data=[rnd.randrange(256) for _ in range(i["len"] - 8)], target=t, workers=1)}))
+        elif e["op"] == "pow2.params":
+            lx = sum(v << (12 * k) for k, v in enumerate(i["lx"]))
+            if lx <= 3 ** 11 and i["len"] >= 8:
+                for _ in range(3):
+                    ins.append(dict(op="pow2.Mine", **{"in": dict(data=[rnd.randrange(256) for _ in range(i["len"] - 8)], target=i["target"], workers=1)}))
+    return ins
+
+
 def judge(ctx, bins, events, what):
     bad = vlib.validate_trace(ctx, "PowTrace", events, chunk=max(4, len(events) // (2 * vlib.NCPU)))
     for pk, binp in bins.items():
         sel = [b for b in bad if b["op"].startswith(pk + ".")]
-        for e in vlib.reproduce_revalidate(ctx, binp, sel, "PowTrace"):
+        conf = vlib.reproduce_revalidate(ctx, binp, sel, "PowTrace")
+
+        def escalate(wb, pk=pk, binp=binp):
+            # directed Mine calls for the deviating parameters plus a larger general campaign, judged by the same trace spec
+            d = ctx.rundir("escalate_" + pk)
+            ev = []
+            ins = [x for x in _directed(wb) if x["op"].startswith(pk + ".")]
+            if ins:
+                vlib.write_ndjson(d + "/in.ndjson", ins)
+                vlib.run_driver(ctx, binp, "replay", d + "/o.ndjson", infile=d + "/in.ndjson", timeout=1500)
+                ev += vlib.read_ndjson(d + "/o.ndjson")
+            vlib.run_driver(ctx, binp, "record", d + "/t.ndjson", n=60, timeout=1500)
+            ev += [x for x in vlib.read_ndjson(d + "/t.ndjson") if x["op"] not in WB_OPS]
+            n0, t0 = ctx.events, ctx.traces
+            rej = vlib.validate_trace(ctx, "PowTrace", ev, chunk=max(4, len(ev) // (2 * vlib.NCPU)), label="T_escalate")
+            ctx.events, ctx.traces = n0, t0
+            return vlib.reproduce_revalidate(ctx, binp, rej, "PowTrace")
+        for e in vlib.settle_whitebox(ctx, conf, WB_OPS, escalate, label=pk):
             ctx.bad.append(dict(event=slim(e), reason=what))
 
 
